@@ -63,8 +63,9 @@ theorem future_closeToday (cfg : InsCfg) (p : Pos) (t : TradeIn) (ht : t.effect 
 def closable (cfg : InsCfg) (tplusOn : Bool) (p : Pos) (openClosing : Int) : Int :=
   if !cfg.isFuture && tplusOn then p.qty - openClosing - p.nonClosable else p.qty - openClosing
 
-/-- `today_closable` given the unfilled quantities of the open CLOSE_TODAY orders -/
-def todayClosable (p : Pos) (openCloseToday : Int) : Int := p.qty - p.oldQty - openCloseToday
+/-- `today_closable` given the unfilled quantities of the open CLOSE_TODAY orders and the position's `closable` (repaired: lots
+committed to resting closing orders of either kind are not closable as today's) -/
+def todayClosable (p : Pos) (openCloseToday : Int) (closableAll : Int) : Int := min (p.qty - p.oldQty - openCloseToday) closableAll
 
 /-- ghost state: a position with the closing orders resting on it -/
 structure PS where
@@ -189,8 +190,8 @@ theorem rejected_close_frame (cfg : InsCfg) (tplusOn : Bool) (s : PS) (q : Int)
 
 /-- a close-today order is accepted only up to today's quantity not yet committed to close-today orders -/
 theorem close_today_bounded (o : OrderIn) (p : Pos) (restCT cl : Int) (ho : o.effect = .closeToday)
-    (h : positionVeto o cl (todayClosable p restCT) = false) : o.qty + restCT ≤ p.qty - p.oldQty := by
-  have h' : ¬ (o.qty > p.qty - p.oldQty - restCT) := by
+    (h : positionVeto o cl (todayClosable p restCT cl) = false) : o.qty + restCT ≤ p.qty - p.oldQty ∧ o.qty ≤ cl := by
+  have h' : ¬ (o.qty > min (p.qty - p.oldQty - restCT) cl) := by
     simpa [positionVeto, ho, todayClosable] using h
   omega
 
@@ -221,7 +222,8 @@ def fstep (cfg : InsCfg) (s : PS) : FOp → PS
     if positionVeto ⟨false, 0, 0, q, .close, false⟩ (closable cfg false s.pos (s.restClose + s.restCloseToday)) 0 then s
     else { s with restClose := s.restClose + q }
   | .submitCloseToday q =>
-    if positionVeto ⟨false, 0, 0, q, .closeToday, false⟩ 0 (todayClosable s.pos s.restCloseToday) then s
+    if positionVeto ⟨false, 0, 0, q, .closeToday, false⟩ 0
+        (todayClosable s.pos s.restCloseToday (closable cfg false s.pos (s.restClose + s.restCloseToday))) then s
     else { s with restCloseToday := s.restCloseToday + q }
   | .fillClose t => { s with pos := (s.pos.applyTradeFuture cfg t).1, restClose := s.restClose - t.qty }
   | .fillCloseToday t => { s with pos := (s.pos.applyTradeFuture cfg t).1, restCloseToday := s.restCloseToday - t.qty }
@@ -288,9 +290,9 @@ theorem future_step_invW (cfg : InsCfg) (s : PS) (op : FOp) (hinv : FInvW s) (ha
     simp only [fstep]
     split_ifs with hv
     · exact ⟨h1, h3, h4, h5, h7⟩
-    · have hle : ¬ (q > todayClosable s.pos s.restCloseToday) := by
+    · have hle : ¬ (q > todayClosable s.pos s.restCloseToday (closable cfg false s.pos (s.restClose + s.restCloseToday))) := by
         simpa [positionVeto] using hv
-      simp only [todayClosable] at hle
+      simp only [todayClosable, closable, Bool.and_false, Bool.false_eq_true, if_false] at hle
       simp only [FInvW]
       exact ⟨h1, h3, by omega, by omega, h7⟩
   | fillClose t =>
@@ -353,9 +355,9 @@ theorem future_step_inv_partial (cfg : InsCfg) (s : PS) (op : FOp) (hinv : FInv 
       simp only [fstep]
       split_ifs with hv
       · exact g6
-      · have hle : ¬ (q > todayClosable s.pos s.restCloseToday) := by
+      · have hle : ¬ (q > todayClosable s.pos s.restCloseToday (closable cfg false s.pos (s.restClose + s.restCloseToday))) := by
           simpa [positionVeto] using hv
-        simp only [todayClosable] at hle
+        simp only [todayClosable, closable, Bool.and_false, Bool.false_eq_true, if_false] at hle
         show s.restCloseToday + q ≤ s.pos.qty - s.pos.oldQty
         omega
     | fillClose t =>
@@ -403,19 +405,111 @@ theorem future_qty_nonneg_partial (cfg : InsCfg) (s : PS) (ops : List FOp) (hinv
   obtain ⟨h1, h3, h4, h5, _⟩ := key ops s hinv.weak hadm
   exact ⟨by omega, h1⟩
 
-/-- the full statement (any accepted submission) is FALSE for the model, as for the code (finding F12): old 2 + today 3,
-a resting CLOSE 5 and a resting CLOSE_TODAY 3 both pass validation; after both fill the quantity is −3 -/
-theorem future_full_statement_false :
-    ∃ (cfg : InsCfg) (s : PS) (ops : List FOp), FInv s ∧
-      (∀ op ∈ ops, match op with | .submitClose q | .submitCloseToday q => 0 < q | _ => True) ∧
-      (ops.foldl (fstep cfg) s).pos.qty < 0 := by
-  refine ⟨⟨true, 10, 1/10, 1, false, 1⟩, ⟨⟨true, 5, 2, 2, 3000, 0, 0, 3000, 0, none⟩, 0, 0⟩,
-    [.submitClose 5, .submitCloseToday 3, .fillClose ⟨3000, 5, .close, 0⟩, .fillCloseToday ⟨3000, 3, .closeToday, 0⟩],
-    ?_, ?_, ?_⟩
-  · simp only [FInv]; decide
-  · intro op hop
-    simp only [List.mem_cons, List.not_mem_nil, or_false] at hop
-    rcases hop with rfl | rfl | rfl | rfl <;> simp
+/-! ### The full statement (after the repair of `today_closable`)
+
+Before the repair `today_closable` ignored resting ordinary CLOSE orders: old 2 + today 3, a resting CLOSE 5 and a resting
+CLOSE_TODAY 3 both passed validation and after both filled the quantity was −3 (finding F12; this file then carried the theorem
+`future_full_statement_false` with exactly that witness, and `future_qty_nonneg_partial` needed the hypothesis that resting ordinary
+closes stay within yesterday's quantity — which a sequence of typed `sell_close/buy_close` calls does not keep either).
+With `today_closable = min(today's lots − resting close-today, closable)` the hypothesis is gone. -/
+
+/-- the invariant that is inductive for every accepted submission: what is committed to closing orders never exceeds the leg -/
+def FInvFull (s : PS) : Prop :=
+  0 ≤ s.pos.oldQty ∧ 0 ≤ s.restClose ∧ 0 ≤ s.restCloseToday ∧ s.restClose + s.restCloseToday ≤ s.pos.qty
+
+theorem FInv.full {s : PS} (h : FInv s) : FInvFull s := by
+  obtain ⟨h1, _, h3, h4, h5, _, _⟩ := h
+  exact ⟨h1, h3, h4, h5⟩
+
+theorem future_step_inv_full (cfg : InsCfg) (s : PS) (op : FOp) (hinv : FInvFull s) (hadm : FAdm s op) :
+    FInvFull (fstep cfg s op) := by
+  obtain ⟨h1, h3, h4, h5⟩ := hinv
+  cases op with
+  | open_ t =>
+    obtain ⟨ht, hq⟩ := hadm
+    obtain ⟨e1, e2⟩ := future_open cfg s.pos t ht
+    simp only [fstep, FInvFull, e1, e2]
+    exact ⟨h1, h3, h4, by omega⟩
+  | submitClose q =>
+    have hq : 0 < q := hadm
+    simp only [fstep]
+    split_ifs with hv
+    · exact ⟨h1, h3, h4, h5⟩
+    · have hle : ¬ (q > closable cfg false s.pos (s.restClose + s.restCloseToday)) := by
+        simpa [positionVeto] using hv
+      simp only [closable, Bool.and_false, Bool.false_eq_true, if_false] at hle
+      simp only [FInvFull]
+      exact ⟨h1, by omega, h4, by omega⟩
+  | submitCloseToday q =>
+    have hq : 0 < q := hadm
+    simp only [fstep]
+    split_ifs with hv
+    · exact ⟨h1, h3, h4, h5⟩
+    · have hle : ¬ (q > todayClosable s.pos s.restCloseToday (closable cfg false s.pos (s.restClose + s.restCloseToday))) := by
+        simpa [positionVeto] using hv
+      simp only [todayClosable, closable, Bool.and_false, Bool.false_eq_true, if_false] at hle
+      simp only [FInvFull]
+      exact ⟨h1, h3, by omega, by omega⟩
+  | fillClose t =>
+    obtain ⟨ht, hq, hr⟩ := hadm
+    obtain ⟨e1, e2⟩ := future_close cfg s.pos t ht
+    simp only [fstep, FInvFull, e1, e2]
+    exact ⟨by omega, by omega, h4, by omega⟩
+  | fillCloseToday t =>
+    obtain ⟨ht, hq, hr⟩ := hadm
+    obtain ⟨e1, e2⟩ := future_closeToday cfg s.pos t ht
+    simp only [fstep, FInvFull, e1, e2]
+    exact ⟨h1, h3, by omega, by omega⟩
+  | cancelClose q =>
+    obtain ⟨hq, hr⟩ := hadm
+    simp only [fstep, FInvFull]
+    exact ⟨h1, by omega, h4, by omega⟩
+  | cancelCloseToday q =>
+    obtain ⟨hq, hr⟩ := hadm
+    simp only [fstep, FInvFull]
+    exact ⟨h1, h3, by omega, by omega⟩
+  | beforeTrading =>
+    simp only [fstep, FInvFull, Pos.beforeTradingBase]
+    exact ⟨by omega, h3, h4, h5⟩
+
+def FAdmRunFull (cfg : InsCfg) : PS → List FOp → Prop
+  | _, [] => True
+  | s, op :: ops => FAdm s op ∧ FAdmRunFull cfg (fstep cfg s op) ops
+
+/-- **C10 (futures, full statement)**: for every sequence of opening fills, submissions of closing orders of ANY positive size through
+ANY API (the position validator decides), fills and cancels of resting closing orders and day changes, no quantity ever goes
+negative, and the orders resting on a leg never add up to more than the leg holds -/
+theorem future_qty_nonneg (cfg : InsCfg) (s : PS) (ops : List FOp) (hinv : FInvFull s) (hadm : FAdmRunFull cfg s ops) :
+    0 ≤ (ops.foldl (fstep cfg) s).pos.qty ∧ 0 ≤ (ops.foldl (fstep cfg) s).pos.oldQty ∧
+    (ops.foldl (fstep cfg) s).restClose + (ops.foldl (fstep cfg) s).restCloseToday ≤ (ops.foldl (fstep cfg) s).pos.qty := by
+  have key : ∀ (ops : List FOp) (s : PS), FInvFull s → FAdmRunFull cfg s ops → FInvFull (ops.foldl (fstep cfg) s) := by
+    intro ops
+    induction ops with
+    | nil => intro s h _; exact h
+    | cons op ops ih =>
+      intro s h hrun
+      obtain ⟨ha, hrest⟩ := hrun
+      exact ih (fstep cfg s op) (future_step_inv_full cfg s op h ha) hrest
+  obtain ⟨h1, h3, h4, h5⟩ := key ops s hinv hadm
+  exact ⟨by omega, h1, h5⟩
+
+/-- the sequence that used to oversell (finding F12) now stops at the validator: after a resting CLOSE 5 on old 2 + today 3 the
+CLOSE_TODAY 3 is refused, and after the CLOSE fills the quantity is 0 -/
+theorem f12_sequence_refused :
+    let cfg : InsCfg := ⟨true, 10, 1/10, 1, false, 1⟩
+    let s0 : PS := ⟨⟨true, 5, 2, 2, 3000, 0, 0, 3000, 0, none⟩, 0, 0⟩
+    let s2 := [FOp.submitClose 5, FOp.submitCloseToday 3].foldl (fstep cfg) s0
+    s2.restClose = 5 ∧ s2.restCloseToday = 0 ∧
+    ([FOp.submitClose 5, .submitCloseToday 3, .fillClose ⟨3000, 5, .close, 0⟩].foldl (fstep cfg) s0).pos.qty = 0 := by
+  decide +kernel
+
+/-- non-vacuity of `future_qty_nonneg`: the typed sequence of the C10 stream — short 8 (old 4): a resting close of 4, then a close of
+8 split into CLOSE 4 + CLOSE_TODAY 4 — is admissible; the CLOSE_TODAY leg is refused -/
+example : let cfg : InsCfg := ⟨true, 10, 1/10, 1, false, 1⟩
+    let s0 : PS := ⟨⟨false, 8, 4, 4, 3000, 0, 0, 3000, 0, none⟩, 0, 0⟩
+    FInvFull s0 ∧ ([FOp.submitClose 4, .submitClose 4, .fillClose ⟨3000, 4, .close, 0⟩, .submitCloseToday 4].foldl (fstep cfg) s0).restCloseToday = 0 := by
+  constructor
+  · simp only [FInvFull]; decide
   · decide +kernel
 
 end RQ.Props.C10
